@@ -35,7 +35,7 @@ def validate(chk, wd, traces, tag="v"):
     todo.sort(key=lambda t: -len(t["events"]))
     shards = [[] for _ in range(NPROC)]
     for k, t in enumerate(todo):
-        shards[k % NPROC].append({k2: v for k2, v in t.items() if k2 not in ("case", "solutions", "ctor_error", "z3_unknowns")})
+        shards[k % NPROC].append({k2: v for k2, v in t.items() if k2 not in ("case", "solutions", "ctor_error", "z3_unknowns", "data")})
 
     def val(ks):
         k, shard = ks
@@ -60,6 +60,45 @@ def validate(chk, wd, traces, tag="v"):
     if len(out) != len(todo):
         raise RuntimeError("TLC decided %d of %d traces" % (len(out), len(todo)))
     return out
+
+
+DATA_CFG = "INIT DInit\nNEXT DNext\nINVARIANT HashesAreShapes\nCHECK_DEADLOCK FALSE\n"
+
+
+def search_conformance(chk, wd, traces):
+    """Diagnostic, never a violation: the data of every recorded step (trees, queue priorities, the tree-hash set) against the
+    decision rules of spec/SolverData.tla.  Result goes to the evidence field search_conformance."""
+    todo = [t["data"] for t in traces if t.get("data") and not t["ctor_error"]]
+    if not todo:
+        return
+    todo.sort(key=lambda d: -len(d["events"]))
+    shards = [[] for _ in range(NPROC)]
+    for k, d in enumerate(todo):
+        shards[k % NPROC].append(d)
+
+    def val(ks):
+        k, shard = ks
+        w = os.path.join(wd, "data%d" % k)
+        os.makedirs(w)
+        tf = os.path.join(w, "data.json")
+        json.dump({"cases": shard}, open(tf, "w"))
+        return tlc.run_tlc("SolverData", DATA_CFG, env={"TRACE_FILE": tf}, wd=w, xmx="3g", timeout=3000)
+    rep = {"cases": 0, "steps": 0, "cases_with_broken_rules": 0, "broken_rules": {}, "examples": {}}
+    byid = {t["id"]: t for t in traces}
+    for r in tmap(val, [(k, s) for k, s in enumerate(shards) if s]):
+        chk.add_tlc(r)
+        for _, cid, steps, diag in r.tuples("DATA"):
+            rep["cases"] += 1
+            rep["steps"] += steps
+            if diag:
+                rep["cases_with_broken_rules"] += 1
+            for d in diag:
+                rep["broken_rules"][d] = rep["broken_rules"].get(d, 0) + 1
+                rep["examples"].setdefault(d, {"constraint": byid[cid]["case"].get("text"), "grammar": byid[cid]["case"].get("grammar"),
+                                               "settings": byid[cid]["case"].get("settings")})
+    if rep["cases"] != len(todo):
+        raise RuntimeError("SolverData judged %d of %d cases" % (rep["cases"], len(todo)))
+    chk.cov["search_conformance"] = rep
 
 
 SETTINGS_GRID = {
